@@ -76,6 +76,13 @@ func c02Ops() []c02op {
 	gb = f("Gemm", "alpha=3;beta=2", "x,w,c", "o", []string{"x:2,2", "w:2,2", "c:1,2"}, "w", "c")
 	gb.altB = []string{"x:1,2"}
 	o = append(o, gb)
+	// the identity scalings (default alpha, beta) with a bias that needs no stretching: the full (M,N) matrix, and a (1,N)
+	// row against a batch of exactly one - nothing on the way forces a copy of C, so the sum must not land in it
+	o = append(o, f("Gemm", "", "x,w,c", "o", []string{"x:2,2", "w:2,2", "c:2,2"}, "w", "c"))
+	gb = f("Gemm", "", "x,w,c", "o", []string{"x:1,2", "w:2,3", "c:1,3"}, "w", "c")
+	gb.altB = []string{"x:2,2"}
+	o = append(o, gb)
+	o = append(o, f("Gemm", "transB=1;beta=1;alpha=1", "x,w,c", "o", []string{"x:1,2", "w:1,2", "c:1,1"}, "w", "c"))
 	o = append(o, f("Conv", "", "x,k,b", "o", []string{"x:1,1,3,3", "k:2,1,2,2", "b:2"}, "k", "b"))
 	o = append(o, f("Conv", "pads=1,0,0,1;strides=2,1", "x,k,b", "o", []string{"x:2,2,3,4", "k:2,2,2,2", "b:2"}, "k", "b"))
 	o = append(o, f("Conv", "", "x,k", "o", []string{"x:1,2,4", "k:1,2,2"}, "k"))
